@@ -957,7 +957,9 @@ func c02TimeUnits(c *Ctx) {
 	for f := range clock {
 		fields = append(fields, f)
 	}
-	sort.Slice(fields, func(i, j int) bool { return fields[i].Name()+fields[i].Pkg().Path() < fields[j].Name()+fields[j].Pkg().Path() })
+	sort.Slice(fields, func(i, j int) bool {
+		return fields[i].Name()+fields[i].Pkg().Path() < fields[j].Name()+fields[j].Pkg().Path()
+	})
 	for _, f := range fields {
 		for _, s := range byField[f] {
 			ci := s.call
